@@ -1758,11 +1758,8 @@ func ReadTerm(vm *VM, streamOrAlias, out, options Term, k Cont, env *Env) *Promi
 	}
 
 	p := NewParser(vm, s)
-	defer func() {
-		_ = s.UnreadRune()
-	}()
-
 	t, err := p.Term()
+	_ = s.UnreadRune()
 	switch err {
 	case nil:
 		break
@@ -1917,9 +1914,7 @@ func PeekByte(vm *VM, streamOrAlias, inByte Term, k Cont, env *Env) *Promise {
 	}
 
 	b, err := s.ReadByte()
-	defer func() {
-		_ = s.UnreadByte()
-	}()
+	_ = s.UnreadByte()
 	switch err {
 	case nil:
 		return Unify(vm, inByte, Integer(b), k, env)
@@ -1955,9 +1950,7 @@ func PeekChar(vm *VM, streamOrAlias, char Term, k Cont, env *Env) *Promise {
 	}
 
 	r, _, err := s.ReadRune()
-	defer func() {
-		_ = s.UnreadRune()
-	}()
+	_ = s.UnreadRune()
 	switch err {
 	case nil:
 		if r == unicode.ReplacementChar {
